@@ -961,7 +961,7 @@ def make_pair(key):
     """Deterministic (old IR, new IR, edits, needles) from a seed key."""
     rng = random.Random(key)
     a = S.generate(rng)
-    b = copy.deepcopy(a)
+    b = S.clone(a)
     k = rng.choice([1, 1, 1, 2, 3])
     applied, needles = [], []
     for fn in rng.sample(EDITS, len(EDITS)):
@@ -1153,7 +1153,7 @@ def run(ctx):
         # equal pairs: rebuilt and reordered
         ctx.evaluated()
         try:
-            same = changes_of(build(a), build(copy.deepcopy(a), rng))
+            same = changes_of(build(a), build(S.clone(a), rng))
             ctx.count("equal_pairs")
             ctx.mark_nontrivial([sdl_a, "equal-reordered"])
             if same:
